@@ -377,5 +377,13 @@ def check(F, run, tier):
     run.add(obs)
     run.floor("R-CURSOR", n, 5)
 
+    # each slice-relative guard refuses exactly the out-of-bounds arguments (positions 0..n and nothing else)
+    ng = 0
+    for fn, specs in c12.reader_guard_specs(F):
+        if fn.cls == SR or fn.qn == MR + "::Slice":
+            run.add(c12.r_guard_exact(F, Engine(F, S), fn, specs, invariants=inv_all if fn.cls == SR else ()))
+            ng += 1
+    run.floor("R-GUARD", ng, 7)
+
     run.add(run_witnesses(F, "C13", WITNESSES))
     run.extra["class_invariants"] = {"SliceReader": sorted(fmt_fact(f) for f in inv_all)}
